@@ -16,8 +16,8 @@ func init() { runners["C20"] = runC20 }
 type c20Case struct {
 	Client bool     `json:"client"`
 	Ops    []string `json:"ops"`  // write | read | ping | closeread | netconn | abandon-reader | abandon-writer | peer-data
-	End    string   `json:"end"`  // close | closenow | peer-close | proto-error | ctx-expiry | transport-failure | close-in-background
-	Then   string   `json:"then"` // close | closenow : the call after which no goroutine may remain
+	End    string   `json:"end"`  // none | close | closenow | peer-close | proto-error | ctx-expiry | transport-failure | close-in-background
+	Then   string   `json:"then"` // close | closenow | close-long-reason | close-bad-code : the call after which no goroutine may remain
 	// EchoDelayMs: the peer answers a Close frame only after this long (a close handshake is then still
 	// in progress when the final call is made)
 	EchoDelayMs int `json:"echo_delay_ms,omitempty"`
@@ -169,9 +169,14 @@ func runC20Case(cc c20Case) (string, string) {
 	}
 	var err error
 	t0 := time.Now()
-	if cc.Then == "close" {
+	switch cc.Then {
+	case "close":
 		err = c.Close(websocket.StatusNormalClosure, "")
-	} else {
+	case "close-long-reason": // cannot be put on the wire: Close returns an error, but it has returned
+		err = c.Close(websocket.StatusInternalError, strings.Repeat("r", 124+len(cc.Ops)))
+	case "close-bad-code":
+		err = c.Close(websocket.StatusCode([]int{1006, 1004, 1015, 999, 2999, 5000, 0}[len(cc.Ops)%7]), "")
+	default:
 		err = c.CloseNow()
 	}
 	took := time.Since(t0)
@@ -200,7 +205,7 @@ func runC20Case(cc c20Case) (string, string) {
 func genC20(rng *rand.Rand) c20Case {
 	ops := []string{"write", "read", "ping", "closeread", "netconn", "abandon-reader", "abandon-writer", "peer-data"}
 	ends := []string{"close", "closenow", "peer-close", "proto-error", "ctx-expiry", "transport-failure", "close-in-background"}
-	cc := c20Case{Client: rng.Intn(2) == 0, End: ends[rng.Intn(len(ends))], Then: []string{"close", "closenow"}[rng.Intn(2)]}
+	cc := c20Case{Client: rng.Intn(2) == 0, End: ends[rng.Intn(len(ends))], Then: []string{"close", "closenow", "close", "closenow", "close-long-reason", "close-bad-code"}[rng.Intn(6)]}
 	for n := rng.Intn(5); n > 0; n-- {
 		cc.Ops = append(cc.Ops, ops[rng.Intn(len(ops))])
 	}
@@ -212,7 +217,7 @@ func genC20(rng *rand.Rand) c20Case {
 
 func runC20(ctx *runCtx) {
 	rep := ctx.rep
-	rep.Rule = "histories of 0..4 operations from {write, read, ping, CloseRead, NetConn, abandoned Reader, abandoned Writer} ended by {Close, CloseNow, peer Close, protocol error, context expiry, transport failure, a Close still running in another goroutine} and followed by Close or CloseNow, both roles, the peer echoing Close frames at once or after 250-400 ms (a close handshake is then in progress during the final call), also after CloseRead + an unsolicited data message; run one at a time; " +
+	rep.Rule = "histories of 0..4 operations from {write, read, ping, CloseRead, NetConn, abandoned Reader, abandoned Writer} ended by {Close, CloseNow, peer Close, protocol error, context expiry, transport failure, a Close still running in another goroutine} and followed by Close, CloseNow or a Close whose code / reason cannot be sent (also as the only closing call), both roles, the peer echoing Close frames at once or after 250-400 ms (a close handshake is then in progress during the final call), also after CloseRead + an unsolicited data message; run one at a time; " +
 		"oracle: the number of live goroutines whose stack is in Conn.timeoutLoop or the CloseRead goroutine is not higher after the final call returned than before the connection was created. distinct = history"
 	if ctx.replay != "" {
 		var cc c20Case
@@ -232,10 +237,22 @@ func runC20(ctx *runCtx) {
 	var cases []c20Case
 	// every ending x final call x each single op, then random histories
 	for _, e := range []string{"close", "closenow", "peer-close", "proto-error", "ctx-expiry", "transport-failure"} {
-		for _, t := range []string{"close", "closenow"} {
+		for _, t := range []string{"close", "closenow", "close-long-reason", "close-bad-code"} {
+			if (t == "close-long-reason" || t == "close-bad-code") && e != "peer-close" && e != "ctx-expiry" {
+				// as the only closing call of the history (below) and after two other endings
+				continue
+			}
 			cases = append(cases, c20Case{Client: len(cases)%2 == 0, End: e, Then: t})
 			for _, op := range []string{"closeread", "abandon-reader", "abandon-writer", "ping"} {
 				cases = append(cases, c20Case{Client: len(cases)%2 == 0, Ops: []string{op}, End: e, Then: t})
+			}
+		}
+	}
+	// Close with arguments that cannot be sent, as the first and only closing call
+	for _, t := range []string{"close-long-reason", "close-bad-code"} {
+		for _, client := range []bool{true, false} {
+			for _, ops := range [][]string{nil, {"closeread"}, {"write", "ping"}, {"abandon-reader"}} {
+				cases = append(cases, c20Case{Client: client, Ops: ops, End: "none", Then: t})
 			}
 		}
 	}
